@@ -139,6 +139,7 @@ func (l *QueueBlockingListener) unblock() {
 	listener, ok := l.limiter.delegate.Acquire(nextEvent.ctx)
 
 	if ok && listener != nil {
+		verifPoint("queue.unblock.acquired")
 		// We successfully acquired a listener from the
 		// delegate. Now we can evict the element from
 		// the queue
@@ -283,6 +284,7 @@ func (l *QueueBlockingLimiter) tryAcquire(ctx context.Context) core.Listener {
 	// Create a holder for a listener and block until a listener is released by another
 	// operation.  Holders will be unblocked in LIFO or FIFO order depending on whatever
 	// ordering was configured when backlog was instantiated
+	verifPoint("queue.beforePush")
 	evict, eventReleaseChan := l.backlog.push(ctx)
 
 	// We're using a nil chan so that we
@@ -304,6 +306,7 @@ func (l *QueueBlockingLimiter) tryAcquire(ctx context.Context) core.Listener {
 		backlogTimeout = timer.C
 	}
 
+	verifPoint("queue.pushed")
 	select {
 	case listener = <-eventReleaseChan:
 		// If we have received a listener then that means
@@ -311,10 +314,12 @@ func (l *QueueBlockingLimiter) tryAcquire(ctx context.Context) core.Listener {
 		// from the queue for us.
 		return listener
 	case <-backlogTimeout:
+		verifPoint("queue.giveup")
 		// Remove the holder from the backlog.
 		evict()
 		return nil
 	case <-ctxDone:
+		verifPoint("queue.giveup")
 		// The context has been cancelled before `maxBacklogTimeout`
 		// could elapse. Since this context no longer needs a listener
 		// we evict it from the backlog to free up space.
